@@ -474,7 +474,9 @@ def describe_roots(groups):
 
 
 # ---------------------------------------- first-order int / float denominators
-_G1 = [1, -1, 2, -2, 4, 3, 0.5, -0.25, 8.0]
+# (49, 98, 103, 107: plain numbers g with g * (1 / g) != 1 in double precision - the leading
+#  coefficient is divided out, not multiplied by a reciprocal)
+_G1 = [1, -1, 2, -2, 4, 3, 0.5, -0.25, 8.0, 49, -49, 98, 103, 107, 49.0, -98.0]
 _R1 = [0.5, -0.5, 0.25, -0.75, 1, -1, 1.0, 2, -2, 1.5, -4.0, 0.9990234375, 1.0009765625]
 
 
